@@ -32,6 +32,7 @@ func receiveLemma(p string, eventsMayFail bool) {
 	h.Env.BeginTx()
 	ok, panicked, m := h.callUser(hReceiveMessage, c)
 	ctx := h.Env.Ctx
+	verifrt.ProbeAttestation("m_message", "m_attestation", "att", m.Message, m.Attestation, h.Att, maxSigs)
 
 	// ---- specification, from the reference decoder ----
 	r := refDecode(m.Message)
@@ -55,8 +56,6 @@ func receiveLemma(p string, eventsMayFail bool) {
 
 	if ok {
 		verifrt.Cover("receive/accepted")
-	} else if panicked {
-		verifrt.Cover("receive/panicked")
 	} else {
 		verifrt.Cover("receive/rejected")
 	}
@@ -120,10 +119,6 @@ func receiveLemma(p string, eventsMayFail bool) {
 					}
 				}
 			}
-		} else {
-			// a failed receive mints nothing that survives: either no mint was requested or the
-			// transaction reports an error (rolled back by the SDK)
-			verifrt.Cover("C04/failed")
 		}
 	}
 	if p == "C14" || p == "" {
